@@ -500,6 +500,8 @@ type chanRig struct {
 	excs  []error
 	inact []error
 	mu    sync.Mutex
+	// keepOpen: the exception probe swallows exceptions instead of closing the channel
+	keepOpen bool
 }
 
 func newChanRig(queue int, handlers ...netty.Handler) *chanRig {
@@ -516,8 +518,11 @@ func newChanRig(queue int, handlers ...netty.Handler) *chanRig {
 	r.pl.AddLast(netty.ExceptionHandlerFunc(func(ctx netty.ExceptionContext, ex netty.Exception) {
 		r.mu.Lock()
 		r.excs = append(r.excs, ex)
+		keep := r.keepOpen
 		r.mu.Unlock()
-		ctx.Close(ex)
+		if !keep {
+			ctx.Close(ex)
+		}
 	}), netty.InactiveHandlerFunc(func(ctx netty.InactiveContext, ex netty.Exception) {
 		r.mu.Lock()
 		r.inact = append(r.inact, ex)
